@@ -101,7 +101,7 @@ class LabelEvaluator:
                 if r == self.nanreal and p == 0:
                     vals[i, 0] = np.nan
         res = EvaluatorResult(objectives=vals[:, :2].copy(), constraints=vals[:, 2:].copy(),
-                              evaluation_info={"tag": np.arange(n, dtype=np.float64)})
+                              evaluation_info={"tag": np.array([code(b, r, p, 0) for b, r, p in labels], dtype=np.float64)})
         k = len(self.calls)
         self.owned += [(f"call{k}.objectives", res.objectives, res.objectives.copy(), res, "objectives"),
                        (f"call{k}.constraints", res.constraints, res.constraints.copy(), res, "constraints"),
@@ -167,6 +167,16 @@ def run(sc, garbage):
                 except (IndexError, AttributeError):       # a label that addresses no reported row
                     ovars.append([num(None), num(None)])
             e["ovars"] = ovars
+            # evaluation_info is routed by label as well (function index 0 in the code)
+            for b, fres in enumerate(ufr, start=1):
+                tag = fres.evaluations.evaluation_info.get("tag")
+                for r in range(R):
+                    values.append({"b": b, "r": r + 1, "p": 0, "f": 0, "val": num(None if tag is None else tag[r])})
+            if ugr is not None:
+                tag = ugr.evaluations.evaluation_info.get("tag")
+                for r in range(R):
+                    for p in range(P):
+                        values.append({"b": 1, "r": r + 1, "p": p + 1, "f": 0, "val": num(None if tag is None else tag[r, p])})
             for b, fres in enumerate(ufr, start=1):
                 for r in range(R):
                     for f in range(3):
